@@ -140,7 +140,7 @@ def run(ctx):
                 os.makedirs(os.path.join(d, f"h{hi}", f"s{si}"), exist_ok=True)
                 path = os.path.join(d, f"h{hi}", f"s{si}", "prog.py" if same else f"step{si}.py")
                 if kind == "complete":
-                    txt = surface.to_python(cands[i])
+                    txt = cands[i].get("text") or surface.to_python(cands[i])
                 elif kind == "abort":
                     txt = abort_text(cands[i], k)
                 else:
@@ -149,7 +149,7 @@ def run(ctx):
                 paths.append(path)
             os.makedirs(os.path.join(d, f"h{hi}", "probe"), exist_ok=True)
             pp = os.path.join(d, f"h{hi}", "probe", "prog.py")
-            open(pp, "w").write(surface.to_python(cands[probe]))
+            open(pp, "w").write(cands[probe].get("text") or surface.to_python(cands[probe]))   # the text the fresh run compiled
             sp = os.path.join(d, f"h{hi}", "spec.json")
             json.dump({"steps": paths, "probe": pp, "timers": timers is True, "probe_twice": timers == "twice"}, open(sp, "w"))
             rc, out, err, dt = vlib.run([vlib.PY, os.path.join(vlib.VERIF, "tools", "run_history.py"), sp], 180, cwd=d,
